@@ -2370,6 +2370,15 @@ def _heap_fields_written(stmts, ex):
             for t in tgts:
                 if isinstance(t, ast.Subscript) and isinstance(t.value, ast.Attribute) and t.value.attr == "data":
                     key = t.slice.value if isinstance(t.slice, ast.Constant) else None
+                    if key is None and isinstance(t.slice, ast.Name):
+                        # a local that names a key: assigned exactly once in the function, to a string constant
+                        defs = [a for a in ast.walk(ex.fn.node) if isinstance(a, (ast.Assign, ast.AugAssign, ast.For))
+                                and any(isinstance(x, ast.Name) and x.id == t.slice.id and isinstance(x.ctx, ast.Store)
+                                        for tg in (a.targets if isinstance(a, ast.Assign) else [a.target])
+                                        for x in ast.walk(tg))]
+                        if len(defs) == 1 and isinstance(defs[0], ast.Assign) and isinstance(defs[0].value, ast.Constant) \
+                                and isinstance(defs[0].value.value, str):
+                            key = defs[0].value.value
                     if key is None:
                         raise Unsupported("data[<non-constant>] written in a loop")
                     fields.add("has_" + key)
